@@ -603,7 +603,11 @@ def check_export(case, res):
                 tol += abs(float(want) - float(b))
             tol *= math.sqrt(2 ** len(order))
     # ---- unitary
-    U = prog.unitary()
+    try:
+        U = prog.unitary()
+    except QasmError as ex:
+        out.append((None, f"exported program is ill-formed for the independent OpenQASM 2 interpreter: {ex}"))
+        return out
     R = from_json_mat(res["U"])
     W = U @ R.conj().T
     d = len(U)
@@ -971,12 +975,16 @@ def run(ctx):
                                        "import": [{"text": c["text"], "order": c["order"]} for c in imp_cases]}, timeout=1800)
     # ---------------- Part A: table obligations
     obl = json.loads((ctx.gen_dir / "obligations.json").read_text())
-    failed = ctx.coq_obligations("table", HEADER, [(o["name"], o["stmt"], "vm_compute. reflexivity.") for o in obl], chunk=15)
+    failed = ctx.coq_obligations("table", HEADER, [(o["name"], o["stmt"], "vm_compute. reflexivity.") for o in obl], chunk=50)
     by = {o["name"]: o for o in obl}
     for name, detail in failed:
         o = by.get(name)
         if o is None:
             ctx.broken_obligation("coq", name, detail); continue
+        if o["kind"] == "doc":
+            if name[:-4] not in [f[0] for f in failed]:
+                ctx.notes.append(f"{o['key']}->{o['qasm']}: same unitary up to a global phase, but not the phase documented in export_phase_table")
+            continue
         ctx.violation(f"table:{o['key']}->{o['qasm']}:{o['kind']}", {"pennylane_gate": o["key"], "qasm_gate": o["qasm"], "claim": o["kind"], "obligation": name,
                       "witness": "for generic real angles the two matrices differ (Laurent-polynomial identity fails)", "detail": detail[-600:]},
                       found_input=True, what=f"OPENQASM_GATES maps {o['key']} to {o['qasm']}, whose qelib1.inc definition is not the same unitary "
@@ -1063,7 +1071,7 @@ def run(ctx):
                 "non-trivial = >=2 ops on >=2 wires exported without error. import: 12 feature classes round-robin.",
         "input_distribution": {"export": hist, "import_features": ihist, "import_errors": ierr, "gates_seen": len(gates_seen),
                                "openqasm3_crosschecked_programs": xchk},
-        "table_obligations": {k: sum(1 for o in obl if o["kind"] == k) for k in ("gate", "phase", "arity")},
+        "table_obligations": {k: sum(1 for o in obl if o["kind"] == k) for k in ("gate", "doc", "phase", "arity")},
     })
     for c, r in list(zip(exp_cases, out["export"]))[5:7]:
         ctx.sample({"case": {k: c[k] for k in ("ops", "meas", "opts")}, "qasm": r.get("qasm")})
